@@ -107,7 +107,27 @@ def random_nonpd3(rng):
             return R
 
 
+def gen_overflow_case(rng, sizes):
+    """exp(m)/1e10 (or its negative) with m around 709: part of the draws overflow to +-inf, which
+    must be discarded like NaN"""
+    mu = rng.uniform(707.5, 711.5)
+    sg = rng.uniform(1.0, 4.0)
+    nodes = [["var", 0], ["un", "exp", 0], ["const", bits(1e10)], ["bin", "div", 1, 2]]
+    ops = ["exp", "div"]
+    if rng.random() < 0.5:
+        nodes.append(["un", "neg", 3])
+        ops.append("neg")
+    N = rng.choice(sizes)
+    per = N if rng.random() < 0.5 else 0
+    return {"nodes": nodes, "root": len(nodes) - 1, "vals": [bits(mu)], "errs": [bits(sg)],
+            "rho": [], "n_meas": 1, "ops": ops, "ref_value": bits(0.0), "kind": "overflow",
+            "raw": {}, "per": per, "global": rng.choice([5, 11, 50]) if per else N,
+            "method": rng.choice(["global", "value"]), "npseed": rng.randrange(2 ** 32)}
+
+
 def gen_case(rng, sizes, force_kind=None):
+    if force_kind == "overflow":
+        return gen_overflow_case(rng, sizes)
     need3 = force_kind in ("near", "nonpd", "partial", "zerosigma")
     target = 3 if need3 else (2 if force_kind == "unit" else rng.choice([1, 2, 2, 3, 3, 3]))
     while True:
@@ -156,6 +176,18 @@ def gen_case(rng, sizes, force_kind=None):
         rho = [[used[i], used[j], bits(rng.uniform(-0.95, 0.95))]]
     c["rho"] = rho
     c["kind"] = "zerosigma" if force_kind == "zerosigma" else kind
+    # some sources are REPEATED measurements (raw data array): value = mean, uncertainty = error on
+    # the mean, while .std is the spread of the raw data — the draws must use the uncertainty
+    raw = {}
+    for v in range(n):
+        if errs[v] > 0 and rng.random() < 0.25:
+            m = rng.randint(3, 8)
+            t = [rng.gauss(0, 1) for _ in range(m)]
+            tm = sum(t) / m
+            t = [x - tm for x in t]
+            sd = math.sqrt(sum(x * x for x in t) / (m - 1)) or 1.0
+            raw[str(v)] = [bits(vals[v] + errs[v] * math.sqrt(m) * x / sd) for x in t]
+    c["raw"] = raw
     N = rng.choice(sizes)
     c["per"] = N if rng.random() < 0.5 else 0
     c["global"] = rng.choice([5, 11, 50]) if c["per"] else N
@@ -174,7 +206,17 @@ def observe(q, case):
     with warnings.catch_warnings(record=True) as w, M.Capture() as cap:
         warnings.simplefilter("always")
         try:
-            objs, meas = exprgen.build_impl(q, case)
+            vals = [unbits(b) for b in case["vals"]]
+            errs = [unbits(b) for b in case["errs"]]
+            meas = []
+            for i in range(case["n_meas"]):
+                data = case.get("raw", {}).get(str(i))
+                meas.append(q.Measurement([unbits(b) for b in data]) if data
+                            else q.Measurement(vals[i], errs[i]))
+            out["vals_eff"] = [float(m.value) for m in meas]
+            out["errs_eff"] = [float(m.error) for m in meas]
+            out["stds"] = [float(m.std) for m in meas]
+            objs = M.build_formula(q, case, meas)
             r = objs[case["root"]]
             if case["method"] == "global":
                 q.set_error_method(q.ErrorMethod.MONTE_CARLO)
@@ -225,14 +267,16 @@ def last_batch(o):
 def model_line(case, o):
     Z = [M.bitlist(arr) for _, arr in last_batch(o)]
     return {"cmd": "mc", "nodes": exprgen.model_nodes(case["nodes"]), "root": case["root"],
-            "vals": case["vals"], "errs": case["errs"], "order": o["order"],
+            "vals": M.bitlist(o["vals_eff"]), "errs": M.bitlist(o["errs_eff"]), "order": o["order"],
             "R": [M.bitlist(row) for row in o["R"]], "Z": Z,
             "per": case["per"], "global": case["global"]}
 
 
 def describe(case):
-    return "{} [corr={}, size per={} global={}, method={}, numpy seed={}]".format(
-        pretty(case), case.get("kind"), case["per"], case["global"], case["method"], case["npseed"])
+    raw = {"m" + k: [unbits(b) for b in v] for k, v in case.get("raw", {}).items()}
+    return "{} [corr={}, size per={} global={}, method={}, numpy seed={}{}]".format(
+        pretty(case), case.get("kind"), case["per"], case["global"], case["method"], case["npseed"],
+        ", repeated measurements (raw data) {}".format(raw) if raw else "")
 
 
 def judge(case, o, m, failures, dist):
@@ -351,6 +395,7 @@ def run(ctx, n_cases, sizes, ref=False, cases=None, force_kind=None):
         dist["sources:{}".format(len(o.get("order", [])))] += 1
         dist["size:{}".format(c["per"] or c["global"])] += 1
         dist["size-per-quantity" if c["per"] else "size-global"] += 1
+        dist["repeated-measurement-sources:{}".format(len(c.get("raw", {})))] += 1
         for op in set(c["ops"]):
             dist["op:" + op] += 1
         if "exception" not in o and ill_conditioned(o):
@@ -429,7 +474,7 @@ def correspond(ctx):
     res = run(ctx, ctx.n(140, 2500), sizes)
     # targeted: the fallback and the structures the quantifier names
     for kind, n in (("nonpd", ctx.n(12, 150)), ("unit", ctx.n(6, 60)), ("near", ctx.n(8, 100)),
-                    ("zerosigma", ctx.n(8, 100))):
+                    ("zerosigma", ctx.n(8, 100)), ("overflow", ctx.n(8, 100))):
         r2 = run(ctx, n, sizes, force_kind=kind)
         res["evaluations"] += r2["evaluations"]
         res["nontrivial"] |= r2["nontrivial"]
@@ -511,8 +556,7 @@ def reference_check(case, o):
             what="Monte Carlo evaluation raised " + o["exception"])
     order = o["order"]
     k = len(order)
-    vals = [unbits(b) for b in case["vals"]]
-    errs = [unbits(b) for b in case["errs"]]
+    vals, errs = o["vals_eff"], o["errs_eff"]
     Z = np.array([arr for _, arr in last_batch(o)], dtype=float)
     if Z.shape[0] != k:
         return dict(base, signature="c02:sample-size", what="wrong number of draws")
